@@ -39,7 +39,7 @@ type FaultPlan struct {
 	// Crash: os.Exit(137) before or after the N-th mutating store/log call of
 	// this lifetime (1-based; 0 = never).
 	CrashAtWrite int    `json:"crash_at_write,omitempty"`
-	CrashSide    string `json:"crash_side,omitempty"` // "before" | "after"
+	CrashSide    string `json:"crash_side,omitempty"` // "before" | "after" | "held" (with CrashMatch: the matched write stays pending while anything else can run, then the process dies before it)
 	// CrashMatch: if set, the crash fires at the CrashAtWrite-th mutating call
 	// whose label contains this substring instead of counting all writes.
 	CrashMatch string `json:"crash_match,omitempty"`
